@@ -12,8 +12,7 @@
    underscore or reserved by RestrictedPython; an optional parameter typed by
    an EEnum), shown below as `_refuted` examples. *)
 From Coq Require Import String Ascii ZArith Bool List.
-From PyecoreV Require Import Lib.PyBase Lib.PyList Model.C3 Model.Operations Model.MetaEdit
-  Proofs.OperationsProofs Proofs.MetaEditProofs.
+From PyecoreV Require Import Lib.PyBase Lib.PyList Model.C3 Model.Operations Model.MetaEdit Proofs.OperationsProofs Proofs.MetaEditProofs.
 Import ListNotations.
 Open Scope Z_scope.
 
